@@ -266,6 +266,20 @@ func (e *Environment) SetLocal(name string, val object.Object) object.Object {
 	return val
 }
 
+// Declare binds a variable, by name, in the innermost scope.
+//
+// Unlike SetLocal this never touches a variable of the same name in
+// an enclosing scope: it is used for the things which belong to a
+// scope - the parameters of a function, variables declared with
+// `local`, and the variables of a foreach-loop - and which must
+// neither change, nor be confused with, their caller's variables.
+func (e *Environment) Declare(name string, val object.Object) object.Object {
+	if len(e.local) > 0 {
+		e.local[len(e.local)-1][name] = val
+	}
+	return val
+}
+
 // SetFunction makes a (golang) function available to the scripting
 // environment.
 func (e *Environment) SetFunction(name string, fun interface{}) interface{} {
